@@ -71,6 +71,9 @@ Example C02_plain_hypotheses_hold :
   (plain_prog cat_retry_exhausted_default /\ valid_orders cat_retry_exhausted_default) /\
   (plain_prog cat_rhombus_fail /\ valid_orders cat_rhombus_fail).
 Proof.
-  repeat split; try (apply valid_orders_b_sound; vm_compute; reflexivity); try (vm_compute; reflexivity);
-    try (apply dsl_body_clean; vm_compute; reflexivity).
+  assert (Hp : forall P bs, p_body P = dsl_body bs -> forallb (fun nb => beh_plain (nb_beh nb)) bs = true ->
+                            graph_plain (b_graph (build (p_decls P) (p_inp P) (p_out P))) = true -> kw_clean (p_input P) = true -> plain_prog P).
+  { intros P bs Eb Hb Hg Hi. split; [exact Hg|]. split; [rewrite Eb; apply dsl_body_clean; exact Hb|exact Hi]. }
+  split; [|split]; (split; [eapply Hp; [reflexivity|vm_compute; reflexivity|vm_compute; reflexivity|vm_compute; reflexivity]
+                           |apply valid_orders_b_sound; vm_compute; reflexivity]).
 Qed.
